@@ -37,10 +37,13 @@ def keys_for(work):
     res = {}
     for prop in PROPS:
         rr = subprocess.run([sys.executable, os.path.join(HERE, "check.py"), prop, "--facts", out, "--json", "--no-evidence"], stdout=subprocess.PIPE, stderr=subprocess.PIPE, text=True)
-        ks = []
+        ks = None
         for line in rr.stdout.splitlines():
             if line.startswith('{"violations"'):
                 ks = json.loads(line)["violations"]
+        if ks is None:
+            # the checker itself failed (exception / no verdict): that is not silence
+            ks = ["ENGINE@%s#crash:%s" % (prop, (rr.stderr.strip().splitlines() or ["?"])[-1][:80])]
         res[prop] = ks
     return res, None
 
